@@ -4,7 +4,7 @@
    initialiser changes only that initialiser, and the returned IDs designate the added items." *)
 From Coq Require Import List Arith NArith ZArith Bool.
 Import ListNotations.
-From Orca Require Import Util Wrap Reindex CheckReidx Additions CheckAdds AddsProofs.
+From Orca Require Import Util Wrap Reindex CheckReidx Additions CheckAdds AddsProofs ReidxInv ReidxHandles AddedHandles.
 Local Open Scope N_scope.
 
 (* ---- initial values are bit-exact: the model of InitExpr::to_wasmencoder_type, read back ---- *)
@@ -290,3 +290,25 @@ Proof.
   - apply req_okb_ok. vm_compute. reflexivity.
   - reflexivity.
 Qed.
+
+(* "... and the returned IDs designate the added items": for every parsed module, every earlier history, every
+   add_global (module level or through an iterator) / add_local_memory and every later history of the engine's calls
+   that does not delete that very item (imports added in front of it, other items deleted, initialisers replaced,
+   exports / data added or deleted, ...), the id the call returned still designates the added item in the IR and the
+   encoder maps it to the index q at which the global / memory index space holds that item. *)
+Theorem C30_returned_ids_designate_the_added_items :
+  forall (c : acase) h1 o x fp h2 s0 r0 s1 id s2 rets2 l mp,
+  arun (abase c) h1 [] = (s0, r0, false) ->
+  adds_a o x fp = true -> astep s0 o = Ok (s1, Some id) ->
+  arun s1 h2 [] = (s2, rets2, false) ->
+  existsb (fun o' => names (rop_a o') x id) h2 = false ->
+  index_space (get_sp (a_m s2) x) = Ok (l, mp) ->
+  nthN (s_items (get_sp (a_m s2) x)) id = Some (mkItem id None false fp) /\
+  exists q, lookup mp id = Some q /\ nthN (space_of_model (a_m s2) l x) q = Some fp.
+Proof. exact added_item_id_designates_it. Qed.
+Print Assumptions C30_returned_ids_designate_the_added_items.
+
+(* the additions it speaks about *)
+Example C30_returned_ids_which_calls : forall fp t e mt,
+  adds_a (OAddGlobal fp t e) SG fp = true /\ adds_a (OItAddGlobal fp t e) SG fp = true /\ adds_a (OAddMem fp mt) SM fp = true.
+Proof. intros. cbn. rewrite N.eqb_refl. repeat split; reflexivity. Qed.
